@@ -8,11 +8,16 @@ Import ListNotations.
 From DTN Require Import Consts SpecSpray.
 Open Scope Z_scope.
 
-(* NotifyNewBundle: a foreign bundle gets one copy (vanilla); make(..., 0) twice *)
+(* NotifyNewBundle: a foreign bundle gets one copy (vanilla); make(..., 0) twice.  Operators: one
+   "err == nil" per branch - the PreviousNodeBlock is looked up, and its node recorded in [sent], in
+   both branches of SprayAndWait (fix 772c5cf) and in both branches of BinarySpray (fix 2edd1c0, plus
+   the test for the BinarySprayBlock); nothing is subtracted for the recorded node. *)
 Lemma spray_notify_ok :
   pkg_routing__SprayAndWait_NotifyNewBundle__lits = [0; 0; Z.of_N spray_foreign_copies]
-  /\ pkg_routing__BinarySpray_NotifyNewBundle__lits = [0; 0].
-Proof. split; reflexivity. Qed.
+  /\ pkg_routing__SprayAndWait_NotifyNewBundle__ops = [39; 39]
+  /\ pkg_routing__BinarySpray_NotifyNewBundle__lits = [0; 0]
+  /\ pkg_routing__BinarySpray_NotifyNewBundle__ops = [39; 39; 39].
+Proof. repeat split; reflexivity. Qed.
 
 (* SenderForBundle: "remainingCopies < 2" (twice in the vanilla loop), "- 1" per selected peer;
    binary: "< 2" once, "/ 2" and "-" *)
